@@ -67,6 +67,37 @@ def run_case(desc):
     # data evolutions: raw SQL leaving one marker row per execution, alone
     # (when the step has no schema edit for the app) or next to schema
     # mutations.  Their executions are counted in the database itself.
+    if rng.random() < 0.35:
+        # tail: an app loses all its models (DeleteModel evolutions) and in
+        # the next version gains a brand-new model together with a data
+        # evolution - its stored signature entry is empty in between
+        from .. import edits as E
+        last = h.specs[-1]
+        cands = []
+        for a in apps:
+            mods = list(last.get(a, {}))
+            # (apps are upgraded independently in the schedules: no other
+            # app may refer to these models at any version)
+            if mods and not any(
+                    r[0] != a for sp in h.specs for m in sp.get(a, {})
+                    for r in E.referrers(sp, a, m)) and not any(
+                    (r[0], r[1]) != (a, m) for m in mods
+                    for r in E.referrers(last, a, m)):
+                cands.append(a)
+        if cands:
+            a = rng.choice(cands)
+            emptied = S.clone(last)
+            texts = ['DeleteModel(%r)' % m for m in emptied[a]]
+            emptied[a] = {}
+            h.specs.append(emptied)
+            h.steps.append([])
+            h.texts.append({a: texts})
+            regained = S.clone(emptied)
+            regained[a] = {'Fresh': {'fields': [['v', {'kind': 'Integer'}]],
+                                     'meta': {}}}
+            h.specs.append(regained)
+            h.steps.append([])
+            h.texts.append({'__force_data__': a})
     for _x in range(rng.randint(0, 2)):
         # a version that only ships data evolutions (models unchanged)
         pos = rng.randint(1, len(h.specs) - 1)
@@ -79,7 +110,8 @@ def run_case(desc):
     for texts in h.texts:
         for a in apps:
             had = bool(texts.get(a))
-            if rng.random() < (0.8 if texts.get('__data__') else 0.4):
+            if texts.get('__force_data__') == a or \
+                    rng.random() < (0.8 if texts.get('__data__') else 0.4):
                 lab = 'e%d' % (count[a] + 1)
                 texts.setdefault(a, []).append(
                     'SQLMutation(%r, ["INSERT INTO vmarker (label) VALUES '
@@ -92,6 +124,7 @@ def run_case(desc):
                 count[a] += 1
     for texts in h.texts:
         texts.pop('__data__', None)
+        texts.pop('__force_data__', None)
     proj = projlab.Project()
     items, stats = [], {'schedules': 1, 'runs': 0,
                         'data_evolutions': len(data_labels)}
@@ -212,6 +245,22 @@ def run_case(desc):
                             if v not in before_versions]
             for a, l, vid in new_rows:
                 stats['labels_checked'] = stats.get('labels_checked', 0) + 1
+                if (a, l) in data_labels and (a, l) not in ex and \
+                        (a, l) not in recorded_by_run and a in apps and \
+                        kind != 'fresh' and \
+                        int(l[1:]) > installed_n.get(a, 10 ** 6):
+                    # a data evolution that became visible after the app was
+                    # installed is recorded for the first time by a run that
+                    # did not execute it
+                    items.append(dict(
+                        ctx, type='RECORDED_WITHOUT_EXECUTION', label=[a, l],
+                        # evidence: did the app have a stored signature
+                        # entry to begin with (an app installed without any
+                        # model has none and is taken for new on every run)
+                        no_models_at_install=not h.app_models(
+                            a, installed_v[a]),
+                        no_models_before_run=not h.app_models(
+                            a, getattr(do_run, 'prev_ver', installed_v)[a])))
                 if (a, l) in recorded_by_run and a in apps:
                     items.append(dict(ctx, type='RECORDED_TWICE',
                                       label=[a, l],
@@ -243,11 +292,14 @@ def run_case(desc):
                             models_unchanged=getattr(
                                 do_run, 'prev_models', {}).get(a) ==
                             S.canon(h.app_models(a, ver[a]))))
+            do_run.prev_ver = dict(ver)
             do_run.prev_models = {a: S.canon(h.app_models(a, ver[a]))
                                   for a in apps}
             return ev
 
         # ---- the schedule
+        installed_n = {a: labels_at[a][ver[a]] for a in apps}
+        installed_v = dict(ver)
         ev = do_run('fresh')
         inst['apps'] = list(apps) if rng.random() < 0.5 else inst['apps']
         fresh_ex = executed_labels(ev) if ev else []
